@@ -7,6 +7,7 @@ The pipe-level part (DoCache abort paths, reader commit order) lives in other su
 -/
 import Rv.Lemmas.LruPending
 import Rv.Lemmas.AdapterPending
+import Rv.Lemmas.CachePipeFlight
 namespace Rv.C09
 open Rv.Lru
 
@@ -191,6 +192,86 @@ theorem adapter_waiters {s : Adapter.State} {fl : List (Adapter.KC × Option Ada
     exact ⟨_, rfl, by simp [Adapter.get_put]⟩
   · simp only [Adapter.cancel, hfl, hs]
   · simp only [Adapter.cancel, hfl, hs]
+
+/-! ### one connection: fetches on the wire and pending entries (`Rv.CachePipe`)
+
+`inFlight st` lists the fetches of the connection that were sent and are not yet answered, or answered and not yet
+handled by the reader loop. All statements are for arbitrary event lists (every interleaving that respects wire
+order); in the model a failed fetch is cancelled in the same step in which its failure is handled, i.e. before
+anybody can wait on it again — the order the real DoCache/DoMultiCache code must keep (tied by the `flightdup`
+and `cachee2e` suites). -/
+
+open Rv.CachePipe in
+/-- **Pending iff in flight.** At every moment the pending entries of the store and the fetches on the wire
+    correspond one to one: every pending entry has exactly one request on the wire that will resolve it (nobody
+    waits on a dead flight), every request on the wire has its pending entry, and no command is on the wire twice. -/
+theorem pending_iff_in_flight (mx base : Int) (evs : List Ev) :
+    let st := CachePipe.run (CachePipe.init mx base) evs
+    (inFlight st).Nodup ∧
+    (∀ e ∈ st.store.list, e.pend = true → (e.key, e.cmd) ∈ inFlight st) ∧
+    (∀ kc ∈ inFlight st, ∃ e ∈ st.store.list, e.key = kc.1 ∧ e.cmd = kc.2 ∧ e.pend = true) := by
+  intro st
+  have h := sf_run (pinv_init mx base) (sf_init mx base) evs
+  exact ⟨h.nodup, h.flight_of, h.pend_of⟩
+
+open Rv.CachePipe in
+/-- while a fetch of (k, c) is on the wire, every further DoCache of (k, c) waits on its entry: no second request -/
+theorem no_second_fetch_while_in_flight (mx base : Int) (evs : List Ev) (k c : Bytes)
+    (hin : (k, c) ∈ inFlight (CachePipe.run (CachePipe.init mx base) evs)) (ttl now : Int) :
+    ∃ id, lookupRes (CachePipe.run (CachePipe.init mx base) evs) k c ttl now = .wait id := by
+  have h := sf_run (pinv_init mx base) (sf_init mx base) evs
+  have hp := pinv_run (pinv_init mx base) evs
+  obtain ⟨e, he, hk, hc, hpe⟩ := h.pend_of _ hin
+  have := (wait_on_pending hp.store he hpe ttl now).1
+  rw [hk, hc] at this
+  exact ⟨e.id, this⟩
+
+open Rv.CachePipe in
+/-- **A failed fetch releases all its waiters.** When the failure of the fetch of (k, c) is handled, its pending
+    entry exists, every caller waiting on it is woken with that error, nothing is cached, the command is no longer in
+    flight, and the next DoCache of (k, c) fetches again. -/
+theorem failed_fetch_releases_all_waiters (mx base : Int) (evs : List Ev) (k c : Bytes) (err : Nat) (rest : List Msg)
+    (hq : (CachePipe.run (CachePipe.init mx base) evs).respQ = .fail k c err :: rest) (t : Int) :
+    let st := CachePipe.run (CachePipe.init mx base) evs
+    let st' := CachePipe.step st (.deliver t)
+    ∃ e ∈ st.store.list, e.key = k ∧ e.cmd = c ∧ e.pend = true ∧
+      st'.store.done = st.store.done ++ [(e.id, .err err)] ∧
+      (k, c) ∉ inFlight st' ∧
+      (∀ x ∈ st'.store.list, ¬ (x.key = k ∧ x.cmd = c)) ∧
+      ∀ ttl now, lookupRes st' k c ttl now = .send := by
+  intro st st'
+  have h := sf_run (pinv_init mx base) (sf_init mx base) evs
+  have hp := pinv_run (pinv_init mx base) evs
+  have hin : (k, c) ∈ inFlight st := by
+    show (k, c) ∈ st.reqQ ++ st.respQ.filterMap cmdOf
+    rw [show st.respQ = .fail k c err :: rest from hq]; simp [cmdOf]
+  obtain ⟨e, he, hk, hc, hpe⟩ := h.pend_of _ hin
+  have hopen : st.store.closed = false := by
+    cases hcl : st.store.closed
+    · rfl
+    · have := hp.store.closedNil hcl; rw [this] at he; cases he
+  have hfind : find? st.store.list k c = some e := by
+    have := find?_of_mem hp.store.nodup he; rw [hk, hc] at this; exact this
+  have hst' : st'.store = cancel st.store k c err := by
+    show (CachePipe.step st (.deliver t)).store = _
+    simp only [CachePipe.step, show st.respQ = .fail k c err :: rest from hq, handle]
+  have h' := sf_step hp h (.deliver t)
+  have hnot : (k, c) ∉ inFlight st' := by
+    intro hin'
+    obtain ⟨e', he', hk', hc', hpe'⟩ := h'.pend_of _ hin'
+    have he' : e' ∈ (cancel st.store k c err).list := by rw [← hst']; exact he'
+    exact (cancel_pending_sub st.store hp.store k c err e' he' hpe').2 ⟨hk', hc'⟩
+  refine ⟨e, he, hk, hc, hpe, ?_, hnot, ?_, ?_⟩
+  · rw [hst']; exact waiters_get_error_cancel k c err e hopen hfind hpe
+  · intro x hx hkc
+    rw [hst'] at hx
+    have hl : (cancel st.store k c err).list = st.store.list.erase e := by
+      simp [cancel, hopen, hfind, hpe, gcHits]
+    rw [hl] at hx
+    exact mem_erase_not_sameKC hp.store.nodup he hx ⟨hkc.1.trans hk.symm, hkc.2.trans hc.symm⟩
+  · intro ttl now
+    show (flight st'.store k c ttl now).2 = .send
+    rw [hst']; exact error_not_cached hp.store k c err e hopen hfind hpe ttl now
 
 /-! ### non-vacuity -/
 
